@@ -10,6 +10,7 @@ import (
 	"github.com/nspcc-dev/neo-go/pkg/smartcontract/callflag"
 	"github.com/nspcc-dev/neo-go/pkg/vm"
 	"github.com/nspcc-dev/neo-go/pkg/vm/stackitem"
+	"github.com/nspcc-dev/neo-go/verifharness/vlib/rng"
 )
 
 // TestProbe compiles VERIF_PROBE_FILE and runs F(args...) on a bare VM.
@@ -82,9 +83,16 @@ func TestGenDump(t *testing.T) {
 	var idx int
 	fmt.Sscan(s, &idx)
 	p := genProgram(idx, 2)
+	if os.Getenv("VERIF_DUMP_FLAT") == "" {
+		if err := p.layOut(rng.New(uint64(idx)+17_000_000), true); err != nil {
+			t.Fatal(err)
+		}
+		p.addLayoutCalls(rng.New(uint64(idx) + 18_000_000))
+	}
 	fmt.Println(p.src)
 	fmt.Println("---- reset")
 	fmt.Println(p.reset)
+	fmt.Println(p.reset2)
 	fmt.Println("---- calls", p.calls)
 	fmt.Println("---- feat", p.feat)
 }
